@@ -6,7 +6,10 @@ import Autd3.Drv.Common
 ```
 open  <n> <T> <n|N> <SEND> <SEND> <DROP>       Controller::open_with_option (timeout T; link.open ok/Err;
                                                scripts of ForceFan, (Clear,Synchronize), Drop on failure)
-send  <T> <TD> <f0,f1,..> <SEND>               Sender::send of a datagram taking f_i frames on device i
+enable <bits>                                  geometry_mut(): Device::enable of device i := bit i ('1'/'0', one per device);
+                                               answer `set <bits>`
+send  <T> <TD> <f0,f1,..> <SEND>               Sender::send of a datagram whose generator answers, for device i, an
+                                               operation of f_i frames (asked for enabled devices only)
 sendx <T> <TD>                                 … whose operation_generator fails
 fwver <SEND> <SEND> <SEND> <SEND> <SEND> <SEND> Controller::firmware_version
 fpga  <o|c> <RECV>                             Controller::fpga_state
@@ -18,7 +21,9 @@ SEND  = (u|U) { "/" FRAME }    link.update ok/Err, then one FRAME per turn of th
 FRAME = (o|c)(s|S) { "+" POLL } is_open, link.send ok/Err, then the polls
 POLL  = c | o RECV [ "!" ]     is_open; receive; "!" = elapsed > timeout after this poll
 RECV  = X | KIND… ":" hh       Err, or per device an acknowledgement kind, and the data byte base
-KIND  = R | P | G | Ehh        the frame's id | (id+127)%128 | (id+64)%128 | the byte hh (error codes 80..ff; any byte in fpga lines)
+KIND  = R | P | G | Ehh        the frame's id | (id+127)%128 | (id+64)%128 | the byte hh (error codes 80..ff; any byte in fpga lines);
+                               one KIND per device, enabled or not — for a disabled device "the frame's id" is the id its
+                               untouched slot still carries
 CLOSE = c | o~SEND~SEND~SEND~(k|K)      close_impl: is_open, three sends, link.close ok/Err
 DROP  = c | o CLOSE                      Drop: is_open; if open (sync copy) close_impl
 stale <id>…                                   real-emulator case: devices left with last_msg_id = ack = id;
@@ -28,6 +33,7 @@ stale <id>…                                   real-emulator case: devices left
 Answer: `<result> | <calls the link saw>`:  n/N open, k/K close, u/U update, o/c is_open,
 `s<id>.<tag>,…` / `S…` send ok/Err (per device header id and first payload byte, hex),
 `r<ack><data>,…` receive (buffer afterwards) / `R` receive Err.
+`fwver` answers `ok:[<idx>:<cpu major>.<cpu minor>.<fpga major>.<fpga minor>.<functions>,…]` for the enabled devices.
 -/
 namespace Autd3.Drv.C04
 open Autd3.Ctl Autd3.Drv
@@ -202,6 +208,14 @@ def step (st : St) (line : String) : St × String :=
         ({ st with ctl := r.2.1 }, answer (showRes r.1) r.2.2)
       else (st, "bad-op")
     | _, _, _, _, _ => (st, "bad-op")
+  | ["enable", bits] =>
+    match st.ctl with
+    | some c =>
+      let bs := bits.toList
+      if bs.length = c.tx.length ∧ bs.all (fun ch => ch = '0' ∨ ch = '1') then
+        ({ st with ctl := some { c with enable := bs.map (· == '1') } }, "set " ++ bits)
+      else (st, "bad-op")
+    | none => (st, "bad-op")
   | ["send", t, td, fs, sc] =>
     match st.ctl, parseT t, parseTD td, nats (fs.splitOn ","), parseSend sc with
     | some c, some t, some td, some fs, some sc =>
@@ -222,7 +236,7 @@ def step (st : St) (line : String) : St × String :=
       if scs.length = 6 then
         let r := firmwareVersion c scs
         let s := match r.1 with
-          | .ok vs => "ok:[" ++ ",".intercalate (vs.map fun v => ".".intercalate (v.map toString)) ++ "]"
+          | .ok vs => "ok:[" ++ ",".intercalate (vs.map fun v => toString v.1 ++ ":" ++ ".".intercalate (v.2.map toString)) ++ "]"
           | .error e => showRes e
         ({ st with ctl := some r.2.1 }, answer s r.2.2)
       else (st, "bad-op")
